@@ -274,7 +274,9 @@ Definition mech_condition (e : env) (c : core) (m : mech) (d : bytes) : Prop :=
   | COOKIE_SHA1 =>
       (* d = client-challenge blanks hash, hash = SHA-1 of "server-challenge:client-challenge:cookie" for the
          cookie the keyring holds under the id announced with the challenge *)
-      exists id i j, a_cookie_id c = Some id /\ find_blank d = (true, i) /\ skip_blank (e_asserts e) d i = Some j /\
+      exists id i j, a_cookie_id c = Some id /\
+        (exists k raw, e_challenge e k = Some raw /\ e_best_key e k = Some id /\ a_challenge c = hex_encode raw) /\
+        find_blank d = (true, i) /\ skip_blank (e_asserts e) d i = Some j /\
         firstn (N.to_nat i) d <> [] /\ e_cookie e id <> [] /\
         skipn (N.to_nat j) d = hex_encode (sha1 (a_challenge c ++ colon ++ firstn (N.to_nat i) d ++ colon ++ e_cookie e id))
   | ANONYMOUS => d = [] \/ validate_utf8 d = Some true
@@ -351,10 +353,11 @@ Proof.
     pose proof I as I'. destruct I. exists m, dec. split; [auto|].
     split; [rewrite mech_data_ok_mech by exact Hs; exact Hm|].
     split; [|exists (N.to_nat j); exact Eh].
-    destruct (I_data Hc) as (Ha & [(M & Hq & Hi & Hck & Hd)|(M & [id Hck] & Hd)]).
+    destruct (I_data Hc) as (Ha & [(M & Hq & Hi & Hck & Hd)|(M & [id Hck] & Hd & (k & raw & Hch1 & Hch2 & Hch3))]).
     + assert (m = EXTERNAL) by congruence. subst m. cbn [mech_data mech_condition] in *.
       apply external_ok_only_if in Hs; auto. congruence.
     + assert (m = COOKIE_SHA1) by congruence. subst m. cbn [mech_data mech_condition] in *.
       unfold cookie_mech in Hs. rewrite Hck in Hs. apply cookie_ok_only_if in Hs.
-      destruct Hs as (i0 & j0 & X). exists id, i0, j0. split; [exact Hck|exact X].
+      destruct Hs as (i0 & j0 & X). exists id, i0, j0. split; [exact Hck|]. split; [|exact X].
+      exists k, raw. repeat split; auto. congruence.
 Qed.
